@@ -14,6 +14,8 @@ CONSTANTS
   ParamKeys = {}
   MaxParamChanges = 0
   Seeded = FALSE
+  Networks = {}
+  Heights0 = {}
   Defects = {}
 INVARIANT Report
 CHECK_DEADLOCK FALSE
